@@ -28,7 +28,7 @@ RULE = ("each run draws a centre manifold (system, point, degree), an energy, a 
         "backend produced; O5 no deadlock; O6 2-d points are the labelled-plane projection of the states. Separate fault "
         "configuration: a backend call raises -> compute must raise or return exactly the reference. A run is non-trivial iff >= 2 "
         "simulated workers were active and >= 1 context switch happened, or a fault fired; distinct = distinct (configuration, "
-        "pick sequence, delivery order) digests.")
+        "pick sequence, delivery order) digests. O7: from a worker's second backend call on, every seed is one of the points its previous call returned (within the O3 accuracy bound). Map histories before the judged computation: another section, another degree of the manifold, another energy on the same manifold, the same section with other options, A-B-A with an identical request, a configuration assignment.")
 ASSUMPTIONS = [
     "one backend.run call is atomic in the simulation; other workers run arbitrary amounts of Python before and after it (sound while kernel inputs are not shared writable memory between workers: checked per run)",
     "numba compiles _poincare_map faithfully; prange semantics as documented; sequential consistency at array-cell granularity",
